@@ -3,6 +3,16 @@ import itertools
 import math
 import numpy as np
 
+CLAIMED = True
+TECHNIQUE = "Lean 4 proof by induction on the number of controls (two-sided invariant) in amplitude-function semantics; gate-list correspondence with ucr.py; Operator oracle"
+LEVEL_TEXT = ("Full proof for the model: for every k>=0, every angle list, RY with CX or CZ and RZ with CX, the recursive "
+              "circuit denotes the ideal multiplexer on every state (theorems C13_ucr, C13_nolast over any commutative ring with "
+              "rotation laws; instance R->C proved from Mathlib). The model is tied to ucr.py by diffing flattened gate lists for "
+              "all flag combinations and structured angle families up to k=5 (quick) / 7 (thorough); the property itself is "
+              "re-evaluated on the real code with qiskit's Operator as failing-input search.")
+LEVEL_NOTE = ("Trusted: Lean kernel (axioms propext, Classical.choice, Quot.sound), the hand model's agreement with ucr.py beyond the "
+              "explored sizes (same recursion for all k), qiskit gate matrices (checked numerically each run), exact arithmetic vs "
+              "float (leaf threshold 1e-8 modelled as angle = 0).")
 LEAN_TARGETS = ["QclibModel.Props.C13"]
 THEOREMS = ["Qclib.C13_ucr", "Qclib.C13_nolast"]
 TRUSTED = [
